@@ -3191,9 +3191,24 @@ impl PeerConnection {
         self.inner.close_with_reason(DisconnectReason::LocalClose);
     }
 
+    /// Next connection event. Returns `None` once the connection is closed and
+    /// the events queued before the close have been drained.
     pub async fn recv(&self) -> Option<PeerConnectionEvent> {
         let mut rx = self.inner.event_rx.lock().await;
-        rx.recv().await
+        let mut state_rx = self.inner.peer_state.subscribe();
+        loop {
+            if *state_rx.borrow_and_update() == PeerConnectionState::Closed {
+                return rx.try_recv().ok();
+            }
+            tokio::select! {
+                ev = rx.recv() => return ev,
+                res = state_rx.changed() => {
+                    if res.is_err() {
+                        return rx.try_recv().ok();
+                    }
+                }
+            }
+        }
     }
 
     /// Initialize a T.38 fax endpoint for the Image transceiver.
